@@ -5,7 +5,9 @@ import (
 	"fmt"
 	"math"
 	"math/rand/v2"
+	"strconv"
 	"strings"
+	"time"
 
 	"seehuhn.de/go/geom/matrix"
 	"seehuhn.de/go/postscript/cid"
@@ -25,7 +27,9 @@ func init() {
 	mon.RegisterCfg("C13", mon.Config{
 		Rule: "generated cff.Font values (simple: glyph names from the 391 standard strings in runs of every length, custom strings, mixtures; encodings nil/standard/expert/custom contiguous with 1..255 ranges and multiply encoded glyphs; CID-keyed: GID->CID maps with runs and scattered values, 1..256 private dictionaries with FDSelect functions constant / few long runs / many short runs around the format 3 vs 0 break-even; FontInfo strings and numbers; integer and fractional widths; private-dict integers at every size-class boundary, reals with 1..12 significant digits and magnitudes 1e-9..1e9; string volumes forcing INDEX offSize 1, 2, 3 and (thorough) 4) are written with (*cff.Font).Write and (a) read back with cff.Read and compared field by field (FDSelect extensionally, reals relative 5e-9, widths 2^-16), (b) walked by the independent reader cffmini: header, every INDEX (offSize in 1..4 and sufficient, offsets from 1 and monotone, data inside the file), Top DICT offsets, charset/encoding/FDSelect format bytes and lengths, Private size/offset, Subrs offset relative to the Private DICT, sections tile the file; names, CIDs, encoding, FDSelect and DICT numbers decoded by cffmini are compared with the source values; widths are recomputed with t2interp. distinct = distinct output files (hash)",
 		Assumptions: []string{
-			"values the reader documents as clamped or normalised are generated inside their ranges: BlueScale in [0,1], StdHW/StdVW in [0,10000], |ItalicAngle| <= 179.9, |real| in 1e-9..1e9 or 0",
+			"values the reader documents as clamped or normalised are generated inside their ranges: BlueScale in [0,1], StdHW/StdVW in [0,10000], |ItalicAngle| <= 179.9; stratum fonts keeps |real| in 1e-9..1e9 or 0",
+			"stratum wide-reals covers the rest of the float64 range (decimal exponents -308..+308, values next to 1e300 / 1e-300 / MaxFloat64 / the smallest normal number, nine-digit roundings that carry): the bytes are judged over the whole range by the independent reader; the library's reader clamps |x| > 1e300 to 1e300 and flushes |x| < 1e-300 to 0 (cff/dict.go decodeFloat), which - like its other clamps - is not judged (skip class roundtrip:real-outside-the-reader's-1e-300..1e300-clamp)",
+			"stratum subnormal-reals: subnormal numbers cannot carry nine digits; the writer must terminate (it runs in its own goroutine with a 20 s bound, the only place where this check looks at a clock) and the stored number must equal the source up to 5e-9 relative + 4 units of the last subnormal place, or be zero",
 			"BlueValues/OtherBlues have at most 14/10 entries (TN5176 delta arrays)",
 			"fractional widths of magnitude >= 10000 are multiples of 1/4; max-min of the widths of a font < 32000",
 			"FontInfo strings are valid UTF-8 (the reader sanitises them)",
@@ -459,6 +463,188 @@ type c13spec struct {
 	font  *cff.Font
 	fdsel []int // extensional FDSelect
 	desc  string
+	wide  bool // dictionary reals over the whole float64 range (stratum wide-reals)
+}
+
+// rtClose compares a real that went through Write and cff.Read.  The reader
+// clamps magnitudes above 1e300 to 1e300 and flushes magnitudes below 1e-300
+// to zero (cff/dict.go decodeFloat); like the other clamps of the reader (see
+// Assumptions) this is not judged: the bytes are (by the independent reader).
+func (sp *c13spec) rtClose(k *mon.Case, got, want float64) bool {
+	if sp.wide && want != 0 && (math.Abs(want) > 1e300 || math.Abs(want) < 1e-300) {
+		k.Skip("roundtrip:real-outside-the-reader's-1e-300..1e300-clamp")
+		return true
+	}
+	return c13relClose(got, want)
+}
+
+// bytesClose compares a real decoded from the bytes by the independent reader
+// with the source value.  Values below 1e-300 in magnitude get a witness class
+// of their own (the writer's digit extraction loses precision there).
+func (sp *c13spec) bytesClose(k *mon.Case, got, want float64) bool {
+	if c13relClose(got, want) {
+		return true
+	}
+	if sp != nil && sp.wide && want != 0 && math.Abs(want) < 1e-300 {
+		k.Fail("mismatch", "bytes:real:below-1e-300:imprecise", "dictionary real %v is stored as %v in the bytes (relative error %.2g, nine digits allow 5e-9)", want, got, math.Abs(got-want)/math.Abs(want))
+		return true
+	}
+	return false
+}
+
+func (sp *c13spec) bytesMatrixClose(k *mon.Case, a, b matrix.Matrix) bool {
+	for i := range a {
+		if !sp.bytesClose(k, a[i], b[i]) {
+			return false
+		}
+	}
+	return true
+}
+
+func (sp *c13spec) rtMatrixClose(k *mon.Case, a, b matrix.Matrix) bool {
+	for i := range a {
+		if !sp.rtClose(k, a[i], b[i]) {
+			return false
+		}
+	}
+	return true
+}
+
+// c13wideReal draws a real from the parts of the float64 range that c13real
+// leaves out: decimal exponents with two and three digits, values next to the
+// reader's clamps and next to the limits of the type.  small restricts the
+// result to (0, 1).
+func c13wideReal(r *rand.Rand, k *mon.Case, small bool) float64 {
+	d := 1 + r.IntN(10)
+	m := float64(1 + r.Int64N(int64(math.Pow10(d))-1))
+	mk := func(e int) float64 { // d digits, leading digit at 10^e
+		v, err := strconv.ParseFloat(fmt.Sprintf("%.0fe%d", m, e-d+1), 64)
+		if err != nil || math.IsInf(v, 0) {
+			return math.MaxFloat64
+		}
+		return v
+	}
+	sel := r.IntN(12)
+	if small && sel < 6 {
+		sel += 6
+	}
+	var v float64
+	switch sel {
+	case 0:
+		v = mk(10 + r.IntN(90))
+		k.Class("real:exponent:+10..+99")
+	case 1:
+		v = mk(100 + r.IntN(199))
+		k.Class("real:exponent:+100..+298")
+	case 2:
+		v = mk(299)
+		k.Class("real:next-to-1e300:inside")
+	case 3:
+		v = []float64{1e300, 9.99999999e299, 1.00000001e300, math.MaxFloat64, 1e308, 1.7e308, math.MaxFloat64 / 2}[r.IntN(7)]
+		if v > 1e300 {
+			k.Class("real:above-1e300")
+		} else {
+			k.Class("real:next-to-1e300:inside")
+		}
+	case 4:
+		v = mk(300 + r.IntN(8))
+		if v <= 1e300 {
+			v = 1.5e300
+		}
+		k.Class("real:above-1e300")
+	case 5: // the rounding to nine digits carries into a new digit
+		e := 10 + r.IntN(280)
+		v, _ = strconv.ParseFloat(fmt.Sprintf("9.99999999%de%d", 5+r.IntN(5), e), 64)
+		k.Class("real:nine-digit-rounding-carries")
+	case 6:
+		v = mk(-10 - r.IntN(90))
+		k.Class("real:exponent:-10..-99")
+	case 7:
+		v = mk(-100 - r.IntN(199))
+		k.Class("real:exponent:-100..-298")
+	case 8:
+		v = mk(-299 - r.IntN(2))
+		if v < 1e-300 {
+			v = 1e-300
+		}
+		k.Class("real:next-to-1e-300:inside")
+	case 9:
+		v = []float64{1e-300, 1.00000001e-300, 9.99999999e-301, 0x1p-1022, 2.3e-308, 1e-307, 1e-305}[r.IntN(7)]
+		if v < 1e-300 {
+			k.Class("real:below-1e-300,normal")
+		} else {
+			k.Class("real:next-to-1e-300:inside")
+		}
+	case 10:
+		v = mk(-301 - r.IntN(7))
+		if v < 0x1p-1022 {
+			v = 0x1p-1022
+		}
+		if v >= 1e-300 {
+			v = 9e-301
+		}
+		k.Class("real:below-1e-300,normal")
+	default:
+		e := -10 - r.IntN(280)
+		v, _ = strconv.ParseFloat(fmt.Sprintf("9.99999999%de%d", 5+r.IntN(5), e), 64)
+		k.Class("real:nine-digit-rounding-carries")
+	}
+	if !small && r.IntN(2) == 0 {
+		v = -v
+	}
+	return v
+}
+
+// c13widen replaces the real-valued fields of a generated font by wide reals.
+func c13widen(r *rand.Rand, k *mon.Case, sp *c13spec) {
+	sp.wide = true
+	f := sp.font
+	mat := func(m *matrix.Matrix) {
+		for i := range m {
+			if r.IntN(3) != 0 {
+				m[i] = c13wideReal(r, k, false)
+			}
+		}
+	}
+	fi := f.FontInfo
+	if r.IntN(4) != 0 {
+		mat(&fi.FontMatrix)
+	}
+	if r.IntN(2) == 0 {
+		fi.UnderlinePosition = funit.Float64(c13wideReal(r, k, false))
+	}
+	if r.IntN(2) == 0 {
+		fi.UnderlineThickness = funit.Float64(c13wideReal(r, k, false))
+	}
+	if r.IntN(3) == 0 {
+		fi.ItalicAngle = c13wideReal(r, k, true) // tiny angles
+		if r.IntN(2) == 0 {
+			fi.ItalicAngle = -fi.ItalicAngle
+		}
+	}
+	for i, p := range f.Private {
+		if i >= 4 {
+			break
+		}
+		if r.IntN(2) == 0 {
+			p.BlueScale = c13wideReal(r, k, true)
+		}
+		if r.IntN(2) == 0 {
+			p.StdHW = c13wideReal(r, k, true)
+		}
+		if r.IntN(2) == 0 {
+			p.StdVW = c13wideReal(r, k, true)
+		}
+	}
+	for i := range f.FontMatrices {
+		if i >= 4 {
+			break
+		}
+		if r.IntN(2) == 0 {
+			mat(&f.FontMatrices[i])
+		}
+	}
+	sp.desc += ",wide-reals"
 }
 
 func c13simple(r *rand.Rand, k *mon.Case, n int, light bool) *c13spec {
@@ -676,7 +862,7 @@ func c13blues(ops []cffmini.Operand) ([]int, bool) {
 }
 
 // c13checkPrivate compares the Private DICT decoded by cffmini with the source.
-func c13checkPrivate(k *mon.Case, d *cffmini.Dict, p *type1.PrivateDict, where string) {
+func c13checkPrivate(k *mon.Case, sp *c13spec, d *cffmini.Dict, p *type1.PrivateDict, where string) {
 	chkBlues := func(op int, name string, want []funit.Int16) {
 		ops, has := d.Get(op)
 		if !has {
@@ -701,7 +887,7 @@ func c13checkPrivate(k *mon.Case, d *cffmini.Dict, p *type1.PrivateDict, where s
 	chkBlues(cffmini.OpOtherBlues, "OtherBlues", p.OtherBlues)
 	num := func(op int, name string, def, want float64, exact bool) {
 		got := d.Num(op, def)
-		if (exact && got != want) || (!exact && !c13relClose(got, want)) {
+		if (exact && got != want) || (!exact && !sp.bytesClose(k, got, want)) {
 			k.Fail("mismatch", "bytes:private:"+name, "%s: %s decodes to %v, source %v", where, name, got, want)
 		}
 	}
@@ -730,15 +916,6 @@ func c13matrixOf(d *cffmini.Dict, def matrix.Matrix) (matrix.Matrix, bool) {
 		m[i] = ops[i].Real
 	}
 	return m, true
-}
-
-func c13matrixClose(a, b matrix.Matrix) bool {
-	for i := range a {
-		if !c13relClose(a[i], b[i]) {
-			return false
-		}
-	}
-	return true
 }
 
 // c13dictClasses records number forms seen in a DICT.
@@ -892,7 +1069,7 @@ func c13check(k *mon.Case, sp *c13spec) {
 	}{{cffmini.OpIsFixedPitch, "isFixedPitch", 0, fp}, {cffmini.OpItalicAngle, "ItalicAngle", 0, f.ItalicAngle},
 		{cffmini.OpUnderlinePosition, "UnderlinePosition", -100, float64(f.UnderlinePosition)},
 		{cffmini.OpUnderlineThickness, "UnderlineThickness", 50, float64(f.UnderlineThickness)}} {
-		if got := mf.Top.Num(s.op, s.def); !c13relClose(got, s.want) {
+		if got := mf.Top.Num(s.op, s.def); !sp.bytesClose(k, got, s.want) {
 			k.Fail("mismatch", "bytes:top:"+s.name, "Top DICT %s decodes to %v, source %v", s.name, got, s.want)
 		}
 	}
@@ -900,7 +1077,7 @@ func c13check(k *mon.Case, sp *c13spec) {
 	if isCID {
 		topDef = matrix.Identity
 	}
-	if m, ok := c13matrixOf(mf.Top, topDef); !ok || !c13matrixClose(m, f.FontInfo.FontMatrix) {
+	if m, ok := c13matrixOf(mf.Top, topDef); !ok || !sp.bytesMatrixClose(k, m, f.FontInfo.FontMatrix) {
 		k.Fail("mismatch", "bytes:top:FontMatrix", "Top DICT FontMatrix decodes to %v, source %v", m, f.FontInfo.FontMatrix)
 	}
 	// charset
@@ -989,9 +1166,9 @@ func c13check(k *mon.Case, sp *c13spec) {
 	for i, fd := range mf.FDs {
 		c13dictClasses(k, fd.Private)
 		c13dictClasses(k, fd.FontDict)
-		c13checkPrivate(k, fd.Private, f.Private[i], fmt.Sprintf("%s private[%d]", where, i))
+		c13checkPrivate(k, sp, fd.Private, f.Private[i], fmt.Sprintf("%s private[%d]", where, i))
 		if isCID {
-			if m, ok := c13matrixOf(fd.FontDict, matrix.Matrix{0.001, 0, 0, 0.001, 0, 0}); !ok || !c13matrixClose(m, f.FontMatrices[i]) {
+			if m, ok := c13matrixOf(fd.FontDict, matrix.Matrix{0.001, 0, 0, 0.001, 0, 0}); !ok || !sp.bytesMatrixClose(k, m, f.FontMatrices[i]) {
 				k.Fail("mismatch", "bytes:fd:FontMatrix", "Font DICT %d FontMatrix decodes to %v, source %v", i, m, f.FontMatrices[i])
 			}
 		}
@@ -1048,11 +1225,11 @@ func c13check(k *mon.Case, sp *c13spec) {
 	}{{"ItalicAngle", bi.ItalicAngle, fi.ItalicAngle}, {"UnderlinePosition", float64(bi.UnderlinePosition), float64(fi.UnderlinePosition)},
 		{"UnderlineThickness", float64(bi.UnderlineThickness), float64(fi.UnderlineThickness)}} {
 		// the reader normalises the angle through (x+180) mod 360 - 180, which costs an absolute 3e-14
-		if !c13relClose(s.got, s.want) && !(s.name == "ItalicAngle" && math.Abs(s.got-s.want) <= 1e-12) {
+		if !sp.rtClose(k, s.got, s.want) && !(s.name == "ItalicAngle" && math.Abs(s.got-s.want) <= 1e-12) {
 			k.Fail("mismatch", "roundtrip:fontinfo:"+s.name, "%s: %v came back as %v", s.name, s.want, s.got)
 		}
 	}
-	if !c13matrixClose(bi.FontMatrix, fi.FontMatrix) {
+	if !sp.rtMatrixClose(k, bi.FontMatrix, fi.FontMatrix) {
 		k.Fail("mismatch", "roundtrip:fontinfo:FontMatrix", "FontMatrix %v came back as %v (%s)", fi.FontMatrix, bi.FontMatrix, where)
 	}
 	if len(back.Glyphs) != n {
@@ -1100,15 +1277,15 @@ func c13check(k *mon.Case, sp *c13spec) {
 			k.Fail("mismatch", "roundtrip:private:BlueValues", "private[%d].BlueValues %v came back as %v", i, a.BlueValues, b.BlueValues)
 		case !eqBlues(a.OtherBlues, b.OtherBlues):
 			k.Fail("mismatch", "roundtrip:private:OtherBlues", "private[%d].OtherBlues %v came back as %v", i, a.OtherBlues, b.OtherBlues)
-		case !c13relClose(a.BlueScale, b.BlueScale):
+		case !sp.rtClose(k, b.BlueScale, a.BlueScale):
 			k.Fail("mismatch", "roundtrip:private:BlueScale", "private[%d].BlueScale %v came back as %v", i, a.BlueScale, b.BlueScale)
 		case a.BlueShift != b.BlueShift:
 			k.Fail("mismatch", "roundtrip:private:BlueShift", "private[%d].BlueShift %v came back as %v", i, a.BlueShift, b.BlueShift)
 		case a.BlueFuzz != b.BlueFuzz:
 			k.Fail("mismatch", "roundtrip:private:BlueFuzz", "private[%d].BlueFuzz %v came back as %v", i, a.BlueFuzz, b.BlueFuzz)
-		case !c13relClose(a.StdHW, b.StdHW):
+		case !sp.rtClose(k, b.StdHW, a.StdHW):
 			k.Fail("mismatch", "roundtrip:private:StdHW", "private[%d].StdHW %v came back as %v", i, a.StdHW, b.StdHW)
-		case !c13relClose(a.StdVW, b.StdVW):
+		case !sp.rtClose(k, b.StdVW, a.StdVW):
 			k.Fail("mismatch", "roundtrip:private:StdVW", "private[%d].StdVW %v came back as %v", i, a.StdVW, b.StdVW)
 		case a.ForceBold != b.ForceBold:
 			k.Fail("mismatch", "roundtrip:private:ForceBold", "private[%d].ForceBold %v came back as %v", i, a.ForceBold, b.ForceBold)
@@ -1146,7 +1323,7 @@ func c13check(k *mon.Case, sp *c13spec) {
 			k.Fail("mismatch", "roundtrip:fontmatrices-count", "%d font matrices came back, wrote %d", len(back.FontMatrices), len(f.FontMatrices))
 		} else {
 			for i := range f.FontMatrices {
-				if !c13matrixClose(back.FontMatrices[i], f.FontMatrices[i]) {
+				if !sp.rtMatrixClose(k, back.FontMatrices[i], f.FontMatrices[i]) {
 					k.Fail("mismatch", "roundtrip:fd-fontmatrix", "FontMatrices[%d] %v came back as %v", i, f.FontMatrices[i], back.FontMatrices[i])
 					break
 				}
@@ -1204,6 +1381,108 @@ func runC13(c *mon.Ctx) {
 			sp = c13simple(r, k, n, light)
 		}
 		c13check(k, sp)
+	})
+
+	// dictionary reals over the whole float64 range
+	c.Stratum("wide-reals", c.N(800, 20000), func(k *mon.Case) {
+		r := k.Rng
+		n := 1 + r.IntN(6)
+		var sp *c13spec
+		if r.IntN(3) == 0 {
+			sp = c13cid(r, k, n, true)
+		} else {
+			sp = c13simple(r, k, n, true)
+		}
+		c13widen(r, k, sp)
+		c13check(k, sp)
+	})
+
+	// subnormal reals: there is no nine-digit precision to preserve, but the
+	// writer must terminate and the number in the bytes must be the source
+	// value as far as a subnormal can be told from its neighbours
+	c.Stratum("subnormal-reals", 8, func(k *mon.Case) {
+		r := k.Rng
+		x := []float64{2e-308, 1.23456789e-310, 1e-312, 1e-315, 3e-316, 1e-320, 5e-324, 1.5e-322}[k.Index%8]
+		field := k.Index / 2 % 3
+		f := &cff.Font{FontInfo: &type1.FontInfo{FontName: "S", FontMatrix: matrix.Matrix{0.001, 0, 0, 0.001, 0, 0}, UnderlinePosition: -100, UnderlineThickness: 50}, Outlines: &cff.Outlines{}}
+		f.Glyphs = c13glyphs(r, []string{".notdef", "A", "B"}, 3, k, true)
+		f.Private = []*type1.PrivateDict{{BlueScale: 0.039625, BlueShift: 7, BlueFuzz: 1}}
+		f.FDSelect = func(glyph.ID) int { return 0 }
+		var name string
+		switch field {
+		case 0:
+			f.Private[0].BlueScale, name = x, "Private.BlueScale"
+		case 1:
+			f.UnderlinePosition, name = funit.Float64(-x), "UnderlinePosition"
+			x = -x
+		default:
+			f.FontMatrix[1], name = x, "FontMatrix[1]"
+		}
+		k.Step(fmt.Sprintf("%s = %g", name, x))
+		k.Distinct(name, x)
+		// the writer runs in its own goroutine: a writer that does not come back
+		// is reported here (bound far above anything a 3-glyph font needs)
+		// instead of stalling the worker for the hard per-case bound
+		type result struct {
+			data  []byte
+			err   error
+			pv    any
+			stack string
+		}
+		done := make(chan result, 1)
+		go func() {
+			var res result
+			buf := &bytes.Buffer{}
+			res.pv, res.stack = mon.Try(func() { res.err = f.Write(buf) })
+			res.data = buf.Bytes()
+			done <- res
+		}()
+		var res result
+		select {
+		case res = <-done:
+		case <-time.After(20 * time.Second):
+			k.Eval()
+			k.Fail("hang", "write:subnormal-real:does-not-terminate", "(*cff.Font).Write has not returned after 20 s for a 3-glyph font with %s = %g", name, x)
+			return
+		}
+		k.Eval()
+		if res.pv != nil {
+			k.Fail("panic", "write:subnormal-real:panic:"+mon.PanicClass(res.pv), "(*cff.Font).Write panics for %s = %g: %v\n%s", name, x, res.pv, res.stack)
+			return
+		}
+		if res.err != nil {
+			k.Class("subnormal-real:write-refuses") // loud: acceptable
+			return
+		}
+		k.Input(res.data)
+		mf, perr := cffmini.Parse(res.data)
+		if perr != nil {
+			k.Fail("mismatch", "structure:subnormal-real", "independent reader: %v (%s = %g)", perr, name, x)
+			return
+		}
+		var got float64
+		switch field {
+		case 0:
+			got = mf.FDs[0].Private.Num(cffmini.OpBlueScale, 0.039625)
+		case 1:
+			got = mf.Top.Num(cffmini.OpUnderlinePosition, -100)
+		default:
+			m, _ := c13matrixOf(mf.Top, matrix.Matrix{0.001, 0, 0, 0.001, 0, 0})
+			got = m[1]
+		}
+		// a subnormal carries 52 - (1022 + exponent) bits; nine digits where it has them, a few units of the last place otherwise
+		if math.Abs(got-x) > 5e-9*math.Abs(x)+4*5e-324 && got != 0 {
+			k.Fail("mismatch", "bytes:subnormal-real:wrong-value", "%s = %g is stored as %g in the bytes (neither the value nor zero)", name, x, got)
+			return
+		}
+		if got == 0 {
+			k.Class("subnormal-real:written-as-zero")
+		} else {
+			k.Class("subnormal-real:written-faithfully")
+		}
+		if _, _, panicked := cffReadGuard(k, res.data); panicked {
+			return
+		}
 	})
 
 	// INDEX offSize boundaries: one custom string / the font name carry exact volumes
@@ -1299,7 +1578,9 @@ func runC13(c *mon.Ctx) {
 		"int-form:1-byte", "int-form:2-byte-positive", "int-form:2-byte-negative", "int-form:3-byte", "int-form:5-byte",
 		"real-form:negative-exponent", "real-form:positive-exponent", "real-form:leading-point", "real-form:with-point", "real-form:integer-digits", "real-form:negative",
 		"width:fractional-default", "width:fractional-nominal", "font:cid", "font:simple", "fds:256", "fds:<256", "header-offsize:1", "header-offsize:2", "header-offsize:3",
-		"predefined-charset:0", "predefined-charset:1", "predefined-charset:2"}
+		"predefined-charset:0", "predefined-charset:1", "predefined-charset:2",
+		"real:exponent:+10..+99", "real:exponent:+100..+298", "real:next-to-1e300:inside", "real:above-1e300", "real:nine-digit-rounding-carries",
+		"real:exponent:-10..-99", "real:exponent:-100..-298", "real:next-to-1e-300:inside", "real:below-1e-300,normal"}
 	if c.Thorough() {
 		req = append(req, "index-offsize:4", "glyphs:65535", "glyphs:simple>=20000", "volume:>16MiB", "header-offsize:4")
 	}
